@@ -735,8 +735,8 @@ func init() {
 		Prop: "C14", World: "admin",
 		Gen: func(t *rapid.T) *Program { return GenPublishProgram(t, true) }, Run: RunPublishProgram,
 		NonTrivial: func(p *Program, r *Result) bool { return r.Probes["admin.mutation.ok"] >= 1 },
-		Rule:     "admin API part: populations created by publish and moved into leased/dead states; cancel/requeue/resume/DLQ requeue/delete by id and by filter through the Admin HTTP handlers (id lists with duplicates and unknown ids, filters with state/route/before/limit/preview); oracle: reference selection and counts, everything else unchanged; request-level rejections change nothing; non-trivial = >=1 accepted mutation",
-		RealStub: stub,
-		Quick:    1200, Thorough: 40000,
+		Rule:       "admin API part: populations created by publish and moved into leased/dead states; cancel/requeue/resume/DLQ requeue/delete by id and by filter through the Admin HTTP handlers (id lists with duplicates and unknown ids, filters with state/route/before/limit/preview); oracle: reference selection and counts, everything else unchanged; request-level rejections change nothing; non-trivial = >=1 accepted mutation",
+		RealStub:   stub,
+		Quick:      1200, Thorough: 40000,
 	})
 }
